@@ -10,7 +10,7 @@
    no struct has two fields of one name, every method a generated body calls is printed under the same option
    vector, scalar default literals have the type of their field, no placeholder text is printed. *)
 From Coq Require Import List String ZArith Bool Ascii.
-From Cog Require Import Model.IR Model.Names Model.GoSemBase.
+From Cog Require Import Model.IR Model.Names Model.Json Model.GoSemBase.
 Import ListNotations.
 Local Open Scope list_scope.
 Local Open Scope string_scope.
@@ -57,6 +57,20 @@ Definition field_type_subst (ctx : schemas) (t : ty) : ty :=
   | _ => t
   end.
 
+Definition format_type_scalar (fl : go_flags) (t : ty) : gotype :=
+  match t with
+  | TScalar _ KAny _ _ => GTBuiltin (if gf_any_as_interface fl then "interface{}" else "any")
+  | TScalar _ k _ _ => scalar_type_name t k
+  | _ => GTPlaceholder "unknown"
+  end.
+
+Definition struct_fields_of (g : gotype) : list (string * gotype) :=
+  match g with
+  | GTStruct fs _ => fs
+  | GTPtr (GTStruct fs _) => fs
+  | _ => []
+  end.
+
 (* doFormatType (resolveBuilders = false) *)
 Fixpoint format_type (fl : go_flags) (ctx : schemas) (t : ty) {struct t} : gotype :=
   match t with
@@ -75,8 +89,10 @@ Fixpoint format_type (fl : go_flags) (ctx : schemas) (t : ty) {struct t} : gotyp
                                            end)) fs) [] in
       if nullable a then GTPtr body else body
   | TInter _ bs =>
+      (* struct branches contribute their fields (formatField, as in a struct body), references are embedded,
+         anything else is printed as an embedded type *)
       GTStruct (flat_map (fun b => match b with
-                                   | TStruct _ _ fs => map (fun f => (format_field_name (f_name f), format_type fl ctx (f_type f))) fs
+                                   | TStruct _ _ _ => struct_fields_of (format_type fl ctx b)
                                    | _ => []
                                    end) bs)
                (flat_map (fun b => match b with
@@ -85,22 +101,16 @@ Fixpoint format_type (fl : go_flags) (ctx : schemas) (t : ty) {struct t} : gotyp
                                    | _ => [format_type fl ctx b]
                                    end) bs)
   | TDisj _ _ | TEnum _ _ | TBad _ _ => GTPlaceholder "unknown"       (* "FIXME: we should never be here" *)
-  end
-with format_type_scalar (fl : go_flags) (t : ty) {struct t} : gotype :=
-  match t with
-  | TScalar _ KAny _ _ => GTBuiltin (if gf_any_as_interface fl then "interface{}" else "any")
-  | TScalar _ k _ _ => scalar_type_name t k
-  | _ => GTPlaceholder "unknown"
   end.
 
-(* ---------- literals: formatScalar = fmt.Sprintf("%#v") ---------- *)
+(* ---------- literals: tools.go formatScalar = fmt.Sprintf("%#v") ---------- *)
 Inductive golit :=
 | LNil
 | LBool (b : bool)
 | LInt (z : Z)
 | LFloat (repr : string)
 | LStr (s : string)                    (* a quoted Go string: also what %#v prints for a json.Number *)
-| LStrSlice (items : list golit)       (* []string{...}: what formatScalar prints for ANY list *)
+| LStrSlice (items : list golit)       (* []string{...}: what the printer emits for ANY list *)
 | LOther (text : string).
 
 Fixpoint format_scalar_lit (d : dyn) : golit :=
@@ -178,17 +188,23 @@ Fixpoint has_slot_field (ctx : schemas) (fs : list field) : bool :=
                end || has_slot_field ctx r)%bool
   end.
 
-(* the methods printed on the struct object o under the option vector fl (rawtypes.go generateSchema) *)
-Definition methods_of (fl : go_flags) (ctx : schemas) (o : object) : list string :=
+(* the methods printed on every struct object under the option vector fl (rawtypes.go generateSchema) *)
+Definition common_methods (fl : go_flags) : list string :=
+  (if (negb (gf_skip_runtime fl) && gf_json fl && gf_strict fl)%bool then ["UnmarshalJSONStrict"] else []) ++
+  (if gf_equal fl then ["Equals"] else []) ++
+  (if (negb (gf_skip_runtime fl) && (gf_builders fl || gf_validate fl))%bool then ["Validate"] else []).
+
+(* ... and those that depend on the object: the custom (un)marshalers of jsonmarshalling.go *)
+Definition custom_methods (fl : go_flags) (ctx : schemas) (o : object) : list string :=
   match o_type o with
   | TStruct _ _ fs =>
       (if (gf_json fl && is_struct_from_disjunction (o_type o))%bool then ["MarshalJSON"] else []) ++
-      (if (gf_json fl && (is_struct_from_disjunction (o_type o) || has_slot_field ctx fs))%bool then ["UnmarshalJSON"] else []) ++
-      (if (negb (gf_skip_runtime fl) && gf_json fl && gf_strict fl)%bool then ["UnmarshalJSONStrict"] else []) ++
-      (if gf_equal fl then ["Equals"] else []) ++
-      (if (negb (gf_skip_runtime fl) && (gf_builders fl || gf_validate fl))%bool then ["Validate"] else [])
+      (if (gf_json fl && (is_struct_from_disjunction (o_type o) || has_slot_field ctx fs))%bool then ["UnmarshalJSON"] else [])
   | _ => []
   end.
+
+Definition methods_of (fl : go_flags) (ctx : schemas) (o : object) : list string :=
+  if is_struct (o_type o) then custom_methods fl ctx o ++ common_methods fl else [].
 
 (* formatTypeDeclaration + generateConstructor + the method generators *)
 Definition decls_of_object (fl : go_flags) (ctx : schemas) (o : object) : list godecl :=
@@ -213,10 +229,28 @@ Definition decls_of_schema (fl : go_flags) (ctx : schemas) (s : schema) : list g
   flat_map (fun ko => decls_of_object fl ctx (snd ko)) (s_objects s).
 
 (* ---------- what the generated method bodies call on OTHER types ---------- *)
+(* the object an alias chain ends in (`type A = B` shares B's method set) *)
+Fixpoint final_object (ctx : schemas) (fuel : nat) (p n : string) : option (string * string) :=
+  match locate_object ctx p n with
+  | Some o =>
+      match o_type o with
+      | TRef _ p' n' => match fuel with O => None | S f => final_object ctx f p' n' end
+      | _ => Some (p, n)
+      end
+  | None => None
+  end.
+
 (* struct objects reached from a field type through arrays, maps and references (what the templates walk) *)
 Fixpoint struct_targets (ctx : schemas) (t : ty) : list (string * string) :=
   match t with
-  | TRef _ p n => if resolves_to_struct ctx t then [(p, n)] else []
+  | TRef _ p n =>
+      match final_object ctx (S (count_objects ctx)) p n with
+      | Some (p', n') => match locate_object ctx p' n' with
+                         | Some o' => if is_struct (o_type o') then [(p', n')] else []
+                         | None => []
+                         end
+      | None => []
+      end
   | TArray _ v => struct_targets ctx v
   | TMap _ _ v => struct_targets ctx v
   | _ => []
@@ -253,11 +287,39 @@ Fixpoint placeholders_in (t : gotype) : list string :=
   | _ => []
   end.
 
+(* an embedded field must be a (qualified, possibly pointed-to) type name: anything else is not Go *)
+Definition embeddable (t : gotype) : bool :=
+  match t with
+  | GTNamed _ _ | GTVariant _ => true
+  | GTBuiltin n => negb (seqb n "[]byte" || seqb n "interface{}")%bool
+  | GTPtr (GTNamed _ _) => true
+  | GTPtr (GTBuiltin n) => negb (seqb n "[]byte" || seqb n "interface{}")%bool
+  | _ => false
+  end.
+Fixpoint unparsable_in (t : gotype) : list string :=
+  match t with
+  | GTPtr x | GTSlice x => unparsable_in x
+  | GTMap k v => unparsable_in k ++ unparsable_in v
+  | GTStruct fs em =>
+      flat_map (fun nf => unparsable_in (snd nf)) fs ++
+      flat_map (fun e => if embeddable e then [] else ["embedded type that is not a type name"]) em
+  | _ => []
+  end.
+
+(* an embedded field is named after its type *)
+Definition embedded_name (t : gotype) : list string :=
+  match t with
+  | GTNamed _ n | GTVariant n | GTBuiltin n => [n]
+  | GTPtr (GTNamed _ n) | GTPtr (GTBuiltin n) => [n]
+  | _ => []
+  end.
+
 Fixpoint struct_fields_distinct (t : gotype) : bool :=
   match t with
   | GTPtr x | GTSlice x => struct_fields_distinct x
   | GTMap k v => (struct_fields_distinct k && struct_fields_distinct v)%bool
-  | GTStruct fs em => (str_nodup (map fst fs) && forallb (fun nf => struct_fields_distinct (snd nf)) fs)%bool
+  | GTStruct fs em =>
+      (str_nodup (map fst fs ++ flat_map embedded_name em) && forallb (fun nf => struct_fields_distinct (snd nf)) fs)%bool
   | _ => true
   end.
 
@@ -274,7 +336,7 @@ Definition decl_types (ds : list godecl) : list gotype :=
 Definition decl_methods (ds : list godecl) : list (string * string) :=
   flat_map (fun d => match d with DMethod r m => [(r, m)] | _ => [] end) ds.
 Definition decl_broken (ds : list godecl) : list string :=
-  flat_map (fun d => match d with DBroken x => [x] | _ => [] end) ds.
+  flat_map (fun d => match d with DBroken x => [x] | DType _ t => unparsable_in t | _ => [] end) ds.
 
 Definition type_declared (fl : go_flags) (ctx : schemas) (pn : string * string) : bool :=
   match locate ctx (fst pn) with
@@ -303,7 +365,7 @@ Definition report (fl : go_flags) (ctx : schemas) (s : schema) : decls_report :=
     (negb (str_nodup (flat_map scope_name ds)))
     (negb (forallb struct_fields_distinct (decl_types ds)))
     (filter (fun c => negb (method_declared fl ctx c)) (flat_map (fun ko => calls_of fl ctx (snd ko)) (s_objects s)))
-    (flat_map placeholders_in (decl_types ds) ++ decl_broken ds).
+    (flat_map placeholders_in (decl_types ds)).
 
 Definition report_ok (r : decls_report) : bool :=
   (match r_undeclared r with [] => true | _ => false end && negb (r_duplicates r) && negb (r_field_clash r) &&
@@ -313,15 +375,17 @@ Definition report_ok (r : decls_report) : bool :=
 Definition decls_wf (fl : go_flags) (ctx : schemas) : bool :=
   forallb (fun s => report_ok (report fl ctx s)) ctx.
 
+(* text that is not Go at all: the run fails instead of writing it *)
+Definition decls_parse (fl : go_flags) (ctx : schemas) : bool :=
+  forallb (fun s => match decl_broken (decls_of_schema fl ctx s) with [] => true | _ => false end) ctx.
+
 (* ---------- the run: goimports (formatGoFiles) turns text that does not parse into an error ---------- *)
 Definition is_ident_text (s : string) : bool :=
   (fix go (s : string) : bool := match s with EmptyString => true | String c r => ((is_alnum c || Ascii.eqb c "_") && go r)%bool end) s.
 
 Definition go_run (fl : go_flags) (ctx : schemas) : res (list (string * list godecl)) :=
   let all := map (fun s => (s_pkg s, decls_of_schema fl ctx s)) ctx in
-  if existsb (fun pd => existsb (fun x => negb (is_ident_text x)) (decl_broken (snd pd))) all
-  then Err "goimports: the generated file does not parse"
-  else Ok all.
+  if decls_parse fl ctx then Ok all else Err "goimports: the generated file does not parse".
 
 (* ---------- hypotheses of the partial theorem, as decidable predicates on the context ---------- *)
 (* kinds doFormatType has a case for, at every depth *)
@@ -345,3 +409,42 @@ Definition object_printable (o : object) : bool :=
 
 Definition ctx_printable (ctx : schemas) : bool :=
   forallb (fun s => forallb (fun ko => object_printable (snd ko)) (s_objects s)) ctx.
+
+(* ---------- the placeholder sites of the Go jenny this model knows (function, text, how it is covered) ----------
+   Compared on every run with the regenerated coq/Gen/Placeholders_gen.v (obligation go_sites_known in Props/C02.v):
+   a site the jenny gains shows up there and is not in this table. *)
+Definition go_sites_known : list (string * string * string) :=
+  [("typeFormatter.doFormatType", "unknown", "model: GTPlaceholder");
+   ("typeFormatter.formatTypeDeclaration", "unhandled type def kind:", "model: DBroken");
+   ("RawTypes.defaultsForStruct", "unsupported default value case: this is likely a bug in cog", "scan only: defaults of non-scalar fields are not modelled");
+   ("Builder.emptyValueForGuard", "unknown", "scan only: builders are not modelled");
+   ("", "found an unimplemented unmarshal case", "scan only: method bodies are not modelled");
+   ("", "found an unimplemented equality case", "scan only: method bodies are not modelled");
+   ("", "found an unimplemented validate case", "scan only: method bodies are not modelled")].
+
+Definition go_site_known (func text : string) : bool :=
+  existsb (fun k => let '(f, t, _) := k in (seqb f func && seqb t text)%bool) go_sites_known.
+
+(* ---------- witnesses of the refuted statements ---------- *)
+Definition G0 : smeta := {| m_kind := ""; m_variant := ""; m_identifier := "" |}.
+Definition sfield (n : string) (t : ty) (req : bool) : field := mkField n [] t req.
+
+(* two objects whose names coincide after camel-casing; two fields likewise *)
+Definition w_collide_ctx : schemas :=
+  [mkSchema "alpha" G0 "" (TBad attrs0 "")
+     [("bar_baz", mkObject "bar_baz" [] (TStruct attrs0 [] [sfield "x" (TScalar attrs0 KString DNil []) true]) "alpha" "bar_baz");
+      ("BarBaz", mkObject "BarBaz" [] (TStruct attrs0 [] [sfield "some_name" (TScalar attrs0 KString DNil []) true;
+                                                          sfield "someName" (TScalar attrs0 KInt64 DNil []) true]) "alpha" "BarBaz")]].
+
+(* what the Go chain leaves of `u: (string | int64)[] | bool` : a union inside the branch of a union struct *)
+Definition w_nested_ctx : schemas :=
+  [mkSchema "p" G0 "" (TBad attrs0 "")
+     [("ArrayOfDisjunctionOrBool",
+       mkObject "ArrayOfDisjunctionOrBool" []
+         (TStruct attrs0 [("disjunction_of_scalars", mkDisj [] "" [])]
+            [sfield "ArrayOfDisjunction"
+                    (TArray attrs0 (TDisj attrs0 (mkDisj [TScalar attrs0 KString DNil []; TScalar attrs0 KInt64 DNil []] "" []))) false;
+             sfield "Bool" (TScalar {| nullable := true; dflt := DNil; hints := [] |} KBool DNil []) false])
+         "p" "ArrayOfDisjunctionOrBool")]].
+
+Definition flags_off : go_flags := mkFlags false false false false false false false.
